@@ -57,6 +57,9 @@ func runC14(w *World) {
 	hc.exact = true
 	w.stepHooks = append(w.stepHooks, hc.stepHook, auditHook(w, func() *Inst { return n.inst }, "C14"))
 	size := []int{15, 30, 60}[w.knob("size", 3)]
+	if w.deep() && w.knob("deep", 3) == 0 {
+		size = 150
+	}
 	prog := w.program("p1", func(r *rand.Rand) []Cmd {
 		g := defaultGenCfg(1)
 		g.keys = []string{"k1"}
